@@ -3,6 +3,8 @@ package main
 // Stream `dsign` (C21): doublesign.SyncedToEmit / DetectParallelInstance.
 
 import (
+	. "verifharness/hlib"
+
 	"bufio"
 	"fmt"
 	"math/big"
@@ -13,7 +15,7 @@ import (
 )
 
 func init() {
-	register("dsign", &Stream{Gen: genDsign, NewRunner: func() Runner { return RunnerFunc(dsignStep) }})
+	Register("dsign", &Stream{Gen: genDsign, NewRunner: func() Runner { return RunnerFunc(dsignStep) }})
 }
 
 // instant given in ns since the zero Time (decimal, may exceed int64)
@@ -33,16 +35,16 @@ var dsErr = map[error]string{
 }
 
 func dsignStep(line string) string {
-	f := fields(line)
+	f := Fields(line)
 	var s doublesign.SyncStatus
 	var thr int64
 	for _, w := range f[1:] {
 		kv := strings.SplitN(w, "=", 2)
 		switch kv[0] {
 		case "peers":
-			s.PeersNum = int(atoi(kv[1]))
+			s.PeersNum = int(Atoi(kv[1]))
 		case "thr":
-			thr = atoi(kv[1])
+			thr = Atoi(kv[1])
 		case "now":
 			s.Now = instant(kv[1])
 		case "startup":
@@ -68,7 +70,7 @@ func dsignStep(line string) string {
 		}
 		return fmt.Sprintf("wait=%d err=%s", int64(wait), n)
 	case "par":
-		return b2s(doublesign.DetectParallelInstance(s, time.Duration(thr)))
+		return B2s(doublesign.DetectParallelInstance(s, time.Duration(thr)))
 	}
 	return "bad-op"
 }
